@@ -51,7 +51,7 @@ var resolveScopes = []resolveScope{
 
 func (c *Ctx) resolveOwner(fn *ssa.Function) string {
 	top := topFunc(fn)
-	name := top.Name()
+	name := c.stableFuncName(top)
 	if recv := top.Signature.Recv(); recv != nil {
 		name = typeName(recv.Type()) + "." + name
 	} else {
